@@ -20,7 +20,7 @@ import (
 
 var (
 	hashLeafRefs   = []int{RefA, RefB, RefC, RefD, RefEntry, RefDyn0, RefDyn1, RefGAS, RefUnknown}
-	byHashLeafRefs = []int{RefA, RefB, RefC, RefD, RefEntry, RefDyn0, RefDyn1, RefGAS, RefUnknown, RefZero}
+	byHashLeafRefs = []int{RefA, RefB, RefC, RefD, RefEntry, RefDyn0, RefDyn1, RefGAS, RefUnknown, RefZero, RefZero}
 	allowedRefs    = []int{RefA, RefB, RefC, RefD, RefEntry, RefDyn0, RefGAS}
 	signerRefs     = []int{RefK0, RefK0, RefK1, RefA, RefC, RefDyn0}
 	flagPalette    = []int{15, 15, 15, 15, 15, 15, 15, 5, 5, 4, 0, 1, 14}
